@@ -252,11 +252,12 @@ func lossyPair(a, b gen.MV) bool {
 }
 
 type c26Verdict struct {
-	fail   string // violation text
-	known  string // known finding key whose class the case belongs to
-	class  string // label
-	relax  bool   // judged by the relaxed rule because of a known finding
-	judged bool
+	fail       string // violation text
+	known      string // known finding key whose class the case belongs to
+	class      string // label
+	relax      bool   // judged by the relaxed rule because of a known finding / documented limit
+	documented bool   // documented 16-digit limit of the decimal path (counted, not a finding)
+	judged     bool
 }
 
 // decPathOK: got is the result of decimal arithmetic on the operands converted
@@ -343,13 +344,15 @@ func c26Arith(op byte, a, b gen.MV, r callResult, known map[string]bool) (v c26V
 			v.class = "decpath_integers_le16"
 			exactly()
 		} else {
-			v.class, v.known = "decpath_integers_gt16", kfBeyond16
-			if known[kfBeyond16] {
-				v.relax = true
-				decimal()
-			} else {
-				exactly()
-			}
+			// Documented limit, not a finding: suneidoc (Number, Introduction)
+			// promises 16 digits of precision; an integer-valued *decimal*
+			// operand takes the decimal path, whose result must be correctly
+			// rounded (judged with the C27 bound) but need not be exact beyond
+			// 10^16. Counted as excluded_documented by the caller.
+			v.class = "decpath_integers_gt16"
+			v.relax = true
+			v.documented = true
+			decimal()
 		}
 	default:
 		v.class = "decpath"
@@ -540,6 +543,9 @@ func TestC26(t *testing.T) {
 					rec.Excluded(v.known)
 					rec.Known(what[v.known])
 				}
+			}
+			if v.documented {
+				rec.Excluded("excluded_documented: integer-valued decimal operand beyond 16 digits (decimal path, correctly rounded)")
 			}
 			if v.fail != "" {
 				t.Fatalf("%s %s", desc, v.fail)
